@@ -227,6 +227,8 @@ fn extra_grammars(idx: u64) -> Option<GCase> {
         "start: body\nbody[stop=\"END\", capture]: /.*/\n",
         "start: p::0\np::_: \"a\" q::set_bit(0) %if bit_clear(0) | \"\" %if bit_set(0)\nq::_: p::_\n",
         "start: x::0x0\nx::_: y::_ \"!\"\ny::_: z::incr(_) %if lt(_, 2) | \"\"\nz::_: \"a\" y::_\n",
+        "start  : cnt::0\ncnt::_ : \"a\" cnt::incr(_)   %if lt(_, 4)\n       | fin::_\nfin::_ : \"!\" \"?\"            %if ge(_, 2)\n",
+        "start: a::0\na::_: \"x\" a::set_bit(0) %if bit_clear(0) | b::_\nb::_: c::_ \"y\" %if bit_set(0)\nc::_: \"z\" %if is_ones([0:1])\n",
     ];
     v.get(idx as usize).map(|t| GCase::lark(&format!("c15_extra{idx}"), t).tag("c15_extra"))
 }
